@@ -56,7 +56,9 @@ def main() -> None:
         if any(r.__name__.startswith("rm_") for r in mod.RULES):
             tech += "; effect analysis of process-lifetime and pass-lifetime results (memoising decorators, module-level stores, mutable defaults, value memos) attributed by ownership"
         if any(r.__name__.startswith("ru_") for r in mod.RULES):
-            tech += "; def-use check of locals and own attributes (read but never bound)"
+            tech += "; def-use check of locals and own attributes (read but never bound), exceptions built but not raised, token predicates whose result is dropped"
+        tech += "; all rules read the source after normalisation against the census of the confirmed commit (new helpers and constants folded back, functions " \
+                "equal modulo a canonical form of syntactic rewrites read in their confirmed spelling, changed functions respelled toward it)"
         if pid == "C15":
             tech += "; exponential-ambiguity test of regex literals on their product automaton"
         checks.append({
